@@ -452,10 +452,14 @@ SPEC = {
             'values (quick: 0..0x17F, all encoding-length boundaries, marks, 300 random; thorough: EVERY scalar value) and random '
             'strings (ASCII, C0 controls, astral, lone marks, empty); decode_text_string on every single byte, non-string objects, '
             'odd-length / unpaired-surrogate UTF-16BE, ill-formed UTF-8 after the mark, partial marks; extract_text and '
-            'extract_text_chunks on generated documents (1-3 pages, 1-3 fonts, Tj/TJ with kerning around the -100 threshold, text '
-            'over the repertoire with the expected text computed from Python code pages) and on arbitrary operation lists (missing '
+            'extract_text_chunks on generated documents (1-3 pages, 1-3 fonts, 1-4 text objects per page with the font selected in '
+            'every text object / once before the first BT / in the first text object only / between text objects / mixed with '
+            'switches in the middle of a text object; Tj/TJ with kerning around the -100 threshold, text over the repertoire '
+            'with the expected text computed from Python code pages) and on arbitrary operation lists (missing '
             'operands, wrong operand types, unknown fonts, ill-typed font dictionaries, nested arrays), each also after save_to + '
-            'load_mem; non-trivial = non-empty input; distinct = distinct case text',
+            'load_mem and after compress + save_to + load_mem, the reloaded text held against the expected text directly; '
+            'encode_text then decode_text on the string of every defined cell of each table (rtall, also cell by cell) and on '
+            'random strings over the repertoire, pure or salted with characters outside it (rt); non-trivial = non-empty input; distinct = distinct case text',
     'extra_trusted': [
         'C16: Rust std String/char (from_utf8, from_utf16, encode_utf16, bytes, is_ascii) behave as Model/Utf.v states '
         '(Unicode definitions D91/D92); tied by the differential runs, every scalar value in the thorough tier',
@@ -476,7 +480,8 @@ MANIFEST = {
                   'string (after two fix: commits; refuted on the pinned tree with witnesses), encode_utf8 / encode_utf16_be decode '
                   'back; for each of the five predefined one-byte encodings no cell is a surrogate so decoding never fails, '
                   'decode(encode(decode bs)) = decode bs for every byte string, and the tables agree with ISO 32000-1 Annex D '
-                  'on printable ASCII and Latin-1; text shown with Tj/TJ over the repertoire is what extract_text returns. '
+                  'on printable ASCII and Latin-1; text shown with Tj/TJ over the repertoire is what extract_text returns, also from '
+                  'several text objects that share one font selection (C16_extract_shown_blocks). '
                   'Tied to the implementation by differential runs through the public API, incl. save_to + load_mem.',
     'level_note': 'Trusted: Coq kernel; translator (5 tables x 256 cells with 4495 glyph constants resolved, name->table switch, marks, '
                   'payload offsets, TJ threshold); model of Rust std UTF-8/UTF-16 conversions (assumed, tied by correspondence); '
